@@ -3,23 +3,26 @@ import GdcVerif.Lemmas.JpegLs
 import GdcVerif.Lemmas.JpegLsNear
 import GdcVerif.Model.Golomb
 import GdcVerif.Lemmas.Golomb
+import GdcVerif.Lemmas.GolombCode
+import GdcVerif.Lemmas.JpegLsRunInt
+import GdcVerif.Lemmas.JpegLsCtx
+import GdcVerif.Lemmas.JpegLsRunCtx
 /-!
-  C03 — JPEG-LS lossless: exact reconstruction at every bit depth (per-sample layer).
+  C03 — JPEG-LS lossless: exact reconstruction at every bit depth.
 
   Theorems over the GENERATED kernels of /repo/jpegls/lossless (`Gen/JpegLs.lean`):
   `Encoder.computeErrorValue`, `Traits.ComputeReconstructedSample`, `MapErrorValue`,
   `UnmapErrorValue`, `ApplySign`, `BitwiseSign`, `ComputeContextID`,
-  `GradientQuantizer.ComputeContext`.
+  `GradientQuantizer.ComputeContext`, `Context.UpdateContext`, `RunModeContext.*`,
+  and over the code-shaped hand models `Model/Golomb.lean` (bit writer, limited-length Golomb code)
+  and `Model/JpegLsRun.lean` (run mode), both tied to the real code by correspondence lines.
 
-  FINDING (unchanged tree): `Encoder.computeErrorValue` narrows to int8/int16 instead of reducing
-  modulo RANGE, so for P ∉ {8,16} the error value is not brought into `[−RANGE/2, RANGE/2)` and
-  its mapped value overflows the qbpp-bit field of the LIMIT escape code
-  (`ls_lossless_sample_exact_counterexample`).  The full statement is kept as
-  `ls_lossless_sample_exact_FullStatement`; it is proved
-    * for P ∈ {8,16} on the kernel as it is (`ls_lossless_sample_exact_partial`), and
-    * for every P in 2..16 for ANY encoder whose `computeErrorValue` agrees with
-      `Traits.ModuloRange` (`ls_lossless_sample_exact_of_reduction`) — which is what the proposed
-      repair makes the kernel (then the hypothesis is closed by `fun _ => rfl`).
+  History: until fix bb6666a `Encoder.computeErrorValue` narrowed to int8/int16 instead of reducing
+  modulo RANGE, so for P ∉ {8,16} the per-sample statement was false (witness P = 12, Px = 0,
+  x = 4095: mapped error 8190 did not fit qbpp = 12 bits).  The statement is now proved at full
+  strength (`ls_lossless_sample_exact`); the witness is kept as an `example` (repaired behaviour)
+  and `golomb_escape_truncates` documents at model level what the unreduced value did to the
+  escape code.
 -/
 namespace C03
 open Gen.JpegLs JpegLsLemmas
@@ -106,6 +109,19 @@ theorem context_index_in_bounds (g : GradientQuantizer) (a b c d : Int) :
 
 example : ComputeContextID 4 4 4 = 364 ∧ ApplySign (-364) (BitwiseSign (-364)) = 364 := by decide
 
+/-- (6b) regular-mode context update (generated `Context.UpdateContext`, T.87 A.6): `1 ≤ N ≤ RESET` and
+    `−128 ≤ C ≤ 127` are preserved and `−N < B ≤ 0` holds after every update (whatever A, B were and
+    whatever error value, NEAR) — so the Golomb parameter loop sees N ≥ 1 and the bias stays a byte -/
+theorem updateContext_invariants (ctx : Context) (e near reset : Int) (hr : 1 ≤ reset)
+    (hN : 1 ≤ ctx.N ∧ ctx.N ≤ reset) (hC : -128 ≤ ctx.C ∧ ctx.C ≤ 127) :
+    (1 ≤ (Context.UpdateContext ctx e near reset).N ∧ (Context.UpdateContext ctx e near reset).N ≤ reset) ∧
+    (-128 ≤ (Context.UpdateContext ctx e near reset).C ∧ (Context.UpdateContext ctx e near reset).C ≤ 127) ∧
+    (-(Context.UpdateContext ctx e near reset).N < (Context.UpdateContext ctx e near reset).B ∧
+       (Context.UpdateContext ctx e near reset).B ≤ 0) :=
+  JpegLsLemmas.updateContext_inv ctx e near reset hr hN hC
+
+example : (Context.UpdateContext { A := 9, N := 64, B := -63, C := -128 } (-5) 0 64).N = 33 := by decide
+
 /-! ### bit writer (hand model `Model/Golomb.lean` of golomb.go, tied by `jls-gw`/`jls-emv`/`jls-dv`) -/
 
 /-- (7) byte stuffing, also needed by C16: for EVERY sequence of `WriteBits(value, count)` calls
@@ -133,18 +149,74 @@ theorem golomb_encode_stuffed (calls : List (Int × Int × Int × Int)) :
 example : (Golomb.finish (Golomb.encodeMappedValue Golomb.Writer.new 0 8190 48 12)).out =
     [0, 0, 0, 0, 31, 253] := by decide
 
-/-- the limited-length Golomb code round trip at bit level (value ↦ bits ↦ value) — STATED, NOT
-    PROVED here (see the registry: unproved layer); evaluated on the real writer/reader and on the
-    model by the harness (`jls-emv`, `jls-dv`, class `jls-golomb-code-roundtrip`). -/
-def golomb_code_roundtrip_FullStatement : Prop :=
-  ∀ (k m limit qbpp : Int) (rest : List Bool), 0 ≤ k ∧ k ≤ 16 → 1 ≤ qbpp ∧ qbpp ≤ 16 →
-    qbpp + 1 < limit ∧ limit ≤ 64 → 0 ≤ m ∧ m - 1 < 2 ^ qbpp.toNat →
-    (Go.shr m k ≥ limit - (qbpp + 1) → 1 ≤ m) →
-    Golomb.decodeValue k limit qbpp (Golomb.writesBits (Golomb.encodeWrites k m limit qbpp) ++ rest) = some (m, rest)
+/-- (9) the limited-length Golomb code round trip at bit level (value ↦ bits ↦ value): for every
+    k ≤ 31, qbpp in 1..16, limit with qbpp+1 < limit ≤ 64 and every mapped value with
+    `m − 1 < 2^qbpp`, `DecodeValue` reads back what `EncodeMappedValue` wrote — through the plain
+    unary path, the > 31-bit prefix split and the LIMIT escape — and leaves the following bits
+    untouched.  (`hesc`: a mapped value of 0 is never escaped; it holds whenever limit > qbpp+1.) -/
+theorem golomb_code_roundtrip (k m limit qbpp : Int) (rest : List Bool)
+    (hk : 0 ≤ k ∧ k ≤ 31) (hq : 1 ≤ qbpp ∧ qbpp ≤ 16) (hl : qbpp + 1 < limit ∧ limit ≤ 64)
+    (hm : 0 ≤ m ∧ m - 1 < 2 ^ qbpp.toNat) :
+    Golomb.decodeValue k limit qbpp (Golomb.writesBits (Golomb.encodeWrites k m limit qbpp) ++ rest) = some (m, rest) :=
+  Golomb.code_roundtrip k m limit qbpp rest hk hq hl hm (by
+    intro hge
+    rw [Golomb.shr_eq' m k hk.1] at hge
+    by_cases h1 : 1 ≤ m
+    · exact h1
+    · have : m = 0 := by omega
+      subst this; simp at hge; omega)
 
-/-- (9) what the unreduced error of the finding does to the escape code: mapped value 8190 at
+example : Golomb.decodeValue 2 32 8 (Golomb.writesBits (Golomb.encodeWrites 2 200 32 8) ++ [true, false]) =
+    some (200, [true, false]) := by decide
+
+/-- (10) run-length code (model `JpegLsRun.encodeRunLength` / `decodeRunLength` of
+    `RunModeScanner.EncodeRunLength` / `DecodeRunLength`, tied by `jls-runseg-*`): for every RUNindex
+    0..31, every line remainder ≥ 1 and every run length 0..remainder, the decoder reads back the same
+    run length, ends with the same RUNindex as the encoder and leaves the following bits untouched -/
+theorem runlength_roundtrip (idx rl remaining : Int) (rest : List Bool)
+    (hidx : 0 ≤ idx ∧ idx ≤ 31) (hrl : 0 ≤ rl ∧ rl ≤ remaining) (hrem : 1 ≤ remaining) :
+    ∃ idx' ws, JpegLsRun.encodeRunLength idx rl (rl == remaining) = .ok (idx', ws) ∧ (0 ≤ idx' ∧ idx' ≤ 31) ∧
+      JpegLsRun.decodeRunLength (Golomb.writesBits ws ++ rest) idx remaining = .ok (rl, idx', rest) :=
+  JpegLsRun.runlength_roundtrip' idx rl remaining rest hidx hrl hrem
+
+example : (JpegLsRun.encodeRunLength 3 5 false).toOption = some (6, [(1, 1), (1, 1), (1, 1), (0, 2)]) := by decide
+
+/-- (11) run-interruption sample (`EncodeRunInterruption` / `DecodeRunInterruption`, limit
+    `LIMIT − J[RUNindex] − 1`): for every admissible (P, NEAR) — NEAR = 0 is the lossless package —
+    every RUNindex, either run-interruption context (any A, N, NN with Golomb parameter ≤ 31) and every
+    error value of the modulo range (non-zero for context 1, as the run test guarantees), the
+    decoder recovers the error value and reaches the same successor context -/
+theorem run_interruption_roundtrip (P : Nat) (N : Int) (h : JpegLsNear.Admissible P N) (idx : Int)
+    (ctx : RunModeContext) (e : Int) (rest : List Bool) (hidx : 0 ≤ idx ∧ idx ≤ 31)
+    (hk : JpegLsRun.getGolombCode ctx ≤ 31)
+    (hrit : ctx.runInterruptionType = 0 ∨ ctx.runInterruptionType = 1)
+    (he0 : ctx.runInterruptionType = 1 → e ≠ 0)
+    (he : ((JpegLsNear.traits P N).Range + 1) / 2 - (JpegLsNear.traits P N).Range ≤ e ∧
+          e < ((JpegLsNear.traits P N).Range + 1) / 2) :
+    ∃ ws ctx', JpegLsRun.encodeRunInterruption (JpegLsNear.traits P N) idx ctx e = .ok (ws, ctx') ∧
+      JpegLsRun.decodeRunInterruption (JpegLsNear.traits P N) idx ctx (Golomb.writesBits ws ++ rest) = .ok (e, ctx', rest) :=
+  JpegLsRun.run_interruption_roundtrip_traits P N h idx ctx e rest hidx hk hrit he0 he
+
+example : JpegLsRun.getGolombCode { runInterruptionType := 1, A := 4, N := 1, NN := 0 } = 2 := by decide
+
+/-- (11b) run-interruption contexts along a scan: `NewRunModeContext` satisfies, and the generated
+    `RunModeContext.UpdateVariables` preserves, `1 ≤ N ≤ RESET`, `0 ≤ NN ≤ N`, `0 ≤ A ≤ 2^17·N`
+    (for mapped values up to 2^17); under it `GetGolombCode` (hand-modelled loop) returns at most 31 —
+    the hypothesis `hk` of `run_interruption_roundtrip` -/
+theorem run_context_invariants (ctx : RunModeContext) (e em reset : Int) (h : JpegLsRun.RunCtxInv ctx reset)
+    (hr : 2 ≤ reset ∧ reset ≤ 64) (hem : 0 ≤ em ∧ em ≤ 131072) :
+    JpegLsRun.RunCtxInv (RunModeContext.UpdateVariables ctx e em reset) reset ∧
+    JpegLsRun.getGolombCode ctx ≤ 31 :=
+  ⟨JpegLsRun.updateVariables_inv ctx e em reset h hr.1 hem, JpegLsRun.getGolombCode_le ctx reset h hr.2⟩
+
+theorem run_context_initial (rit range : Int) (hrit : rit = 0 ∨ rit = 1) (hr : 2 ≤ range ∧ range ≤ 65536) :
+    JpegLsRun.RunCtxInv (NewRunModeContext rit range) 64 := JpegLsRun.newRunModeContext_inv rit range hrit hr
+
+example : JpegLsRun.getGolombCode (NewRunModeContext 1 256) = 2 := by decide
+
+/-- (12) what an unreduced error of the finding does to the escape code: mapped value 8190 at
     qbpp = 12 is written as (8190−1) mod 4096 and read back as 4094 — model-level replay of the
-    P = 12 witness (`ls_lossless_sample_exact_counterexample`) -/
+    former P = 12 witness (repaired by bb6666a; regression anchor) -/
 theorem golomb_escape_truncates :
     Golomb.decodeValue 0 48 12 (Golomb.writesBits (Golomb.encodeWrites 0 8190 48 12)) = some (4094, []) := by
   decide
